@@ -177,6 +177,14 @@ LocalizeRefinesProvedStep ==
        \E w \in 1..(Len(clusters) + 1) :
           /\ (HoldersOf(cur) # {} => w \in HoldersOf(cur))
           /\ \A j \in 1..Len(clusters) : clusters'[j].idx = (IF j # w THEN clusters[j].idx \ {cur} ELSE clusters[j].idx)]_vars
+\* get_clusters returns: under weak fairness of the pipeline's own steps the state "done" is reached
+\* (the seed loop shrinks `remaining`, the merge work-list ends with a merged head or empty, localize and clean count up)
+Pipeline == SeedDone \/ MergeStep \/ MergeDone \/ LocalizeStep \/ LocalizeDone \/ CleanDone
+            \/ (\E keep \in SUBSET Atoms : CleanStep(keep))
+            \/ (\E s \in remaining : \E mask \in SUBSET {a \in Atoms : Z[a] = Z[s]} :
+                   SeedStep(s, mask, FALSE, {}) \/ \E grain \in SUBSET Atoms : SeedStep(s, mask, TRUE, grain))
+FairSpec == Spec /\ WF_vars(Pipeline)
+Terminates == <>(pc = "done")
 \* C13: the matrix used by the shortcut belongs to the cluster's current atoms
 CacheCoherent == Final => \A j \in 1..Len(clusters) : clusters[j].cache = NoCache \/ clusters[j].cache = clusters[j].idx
 \* C02 (pipeline part): if the first region answer covers every atom, exactly one complete cluster comes out
